@@ -612,6 +612,9 @@ pub fn replay_bounded(unit: &str) -> Option<i32> {
     Some(match unit {
         "b_c03_apply_tagenv_lists" => run_grid(unit, contract_apply_tagenv_lists, limit),
         "b_c07_named_bits" => run_grid(unit, contract_named_bits, limit),
+        "b_generate_constructed" => run_grid(unit, contract_generate_constructed, limit),
+        "b_c02_recursion_marking" => run_grid(unit, contract_recursion_marking, limit),
+        "b_c04_value_references" => run_grid(unit, contract_constraint_value_references, limit),
         "b_c04_integer_set_expression" => run_grid(unit, contract_integer_set_expression, limit),
         "b_c14_enumerated_parser" => run_grid(unit, crate::lexer::verif_hook_enumerated::contract_enumerated_parser_quick, limit),
         "b_c14_enumerated_parser_full" => run_grid(unit, crate::lexer::verif_hook_enumerated::contract_enumerated_parser_full, limit),
@@ -729,4 +732,256 @@ fn combine(a: Iv, b: Iv, op: usize) -> Iv {
         1 => Iv { lo: match (a.lo, b.lo) { (Some(x), Some(y)) => Some(x.max(y)), (x, None) => x, (None, y) => y }, hi: match (a.hi, b.hi) { (Some(x), Some(y)) => Some(x.min(y)), (x, None) => x, (None, y) => y } },
         _ => a,
     }
+}
+
+// ------------------------------------------------------------------------------------------------
+// C02 / C03 / C05 — emission of constructed types by the rasn backend (`Backend::generate_module` ->
+// generate_tld -> generate_sequence_or_set / generate_choice -> format_sequence_or_set_members, format_choice_options,
+// format_tag, ...).  All of it is `quote!`/TokenStream code (Kani ICE on proc_macro2, no Verus support), so this
+// contract runs as a native bounded stand-in on IR values built directly (no lexer, no linker involved).
+// ------------------------------------------------------------------------------------------------
+#[cfg(not(kani))]
+fn split_top_level(body: &str) -> Vec<String> {
+    let mut out = vec![];
+    let mut depth = 0i32;
+    let mut cur = String::new();
+    for ch in body.chars() {
+        match ch {
+            '(' | '[' | '{' => { depth += 1; cur.push(ch); }
+            ')' | ']' | '}' => { depth -= 1; cur.push(ch); }
+            ',' if depth == 0 => { out.push(cur.trim().to_string()); cur = String::new(); }
+            _ => cur.push(ch),
+        }
+    }
+    if !cur.trim().is_empty() { out.push(cur.trim().to_string()); }
+    out
+}
+/// (attributes before the item, fields/variants as written) of `pub struct <name> {..}` / `pub enum <name> {..}`
+#[cfg(not(kani))]
+fn item_of(generated: &str, name: &str) -> Option<(String, Vec<String>)> {
+    let head_s = format!("pub struct {name} {{");
+    let head_e = format!("pub enum {name} {{");
+    let (pos, head) = match (generated.find(&head_s), generated.find(&head_e)) { (Some(p), _) => (p, head_s), (_, Some(p)) => (p, head_e), _ => return None };
+    let attrs_start = generated[..pos].rfind("# [derive").unwrap_or(0);
+    let body_start = pos + head.len();
+    let mut depth = 1;
+    let mut end = body_start;
+    for (i, ch) in generated[body_start..].char_indices() {
+        match ch { '{' => depth += 1, '}' => { depth -= 1; if depth == 0 { end = body_start + i; break; } } _ => {} }
+    }
+    Some((generated[attrs_start..pos].to_string(), split_top_level(&generated[body_start..end])))
+}
+
+pub fn contract_generate_constructed<C: Ctx>(cx: &mut C) {
+    #[cfg(not(kani))]
+    {
+        use crate::intermediate::types::*;
+        use crate::generator::Backend;
+        use std::{cell::RefCell, rc::Rc};
+        let env = any_tagenv(cx);
+        let implied = cx.any_bool();
+        let kind = cx.choose(3); // 0 SEQUENCE, 1 SET, 2 CHOICE
+        let n = 1 + cx.choose(3);
+        let ext = cx.choose(n + 2); // 0 = no marker, k+1 = marker with first addition index k (0..=n)
+        let extensible = if ext == 0 { None } else { Some(ext - 1) };
+        let mut optional = [false; 4];
+        let mut tagged = [false; 4];
+        for i in 0..n {
+            optional[i] = kind != 2 && cx.any_bool();
+            tagged[i] = cx.any_bool();
+        }
+        // a tag as it looks after apply_tagging_environment in a module with default `env`
+        let member_tag = |i: usize| if tagged[i] { Some(AsnTag { environment: env, tag_class: TagClass::ContextSpecific, id: 10 + i as u64 }) } else { None };
+        let ty = if kind == 2 {
+            ASN1Type::Choice(Choice { extensible, constraints: vec![], options: (0..n).map(|i| ChoiceOption { name: format!("f{i}"), tag: member_tag(i), ty: ASN1Type::Boolean(Boolean { constraints: vec![] }), constraints: vec![], is_recursive: false }).collect() })
+        } else {
+            let s = SequenceOrSet { components_of: vec![], extensible, constraints: vec![], members: (0..n).map(|i| SequenceOrSetMember { name: format!("f{i}"), tag: member_tag(i), ty: ASN1Type::Boolean(Boolean { constraints: vec![] }), optionality: if optional[i] { Optionality::Optional } else { Optionality::Required }, is_recursive: false, constraints: vec![] }).collect() };
+            if kind == 0 { ASN1Type::Sequence(s) } else { ASN1Type::Set(s) }
+        };
+        let header = |name: &str, env, implied: bool| Rc::new(RefCell::new(ModuleHeader { name: name.into(), module_identifier: None, encoding_reference_default: None, tagging_environment: env,
+            extensibility_environment: if implied { ExtensibilityEnvironment::Implied } else { ExtensibilityEnvironment::Explicit }, imports: vec![], exports: None }));
+        let tld = |h: &Rc<RefCell<ModuleHeader>>, ty: &ASN1Type| ToplevelDefinition::Type(ToplevelTypeDefinition { comments: String::new(), tag: None, name: "T".into(), ty: ty.clone(), parameterization: None, module_header: Some(h.clone()) });
+        cx.describe(|| format!("module_default={env:?} extensibility_implied={implied} kind={} components={n} first_addition_index={extensible:?} optional={:?} tagged={:?}", ["SEQUENCE", "SET", "CHOICE"][kind], &optional[..n], &tagged[..n]));
+        let h = header("M", env, implied);
+        let mut backend = crate::generator::rasn::Rasn::default();
+        let out = backend.generate_module(vec![tld(&h, &ty)]);
+        let generated = match out { Ok(m) if m.warnings.is_empty() => m.generated.unwrap_or_default(), _ => { vob!(cx, "C02.generate.constructed_type_is_generated", false); return; } };
+        let Some((attrs, fields)) = item_of(&generated, "T") else { vob!(cx, "C02.generate.constructed_type_is_generated", false); return; };
+        // C02: exactly one field / variant per component, in source order
+        let mut in_order = fields.len() == n;
+        for (i, f) in fields.iter().enumerate() {
+            let key = if kind == 2 { format!("f{i} (") } else { format!("pub f{i} :") };
+            in_order = in_order && f.contains(&key);
+        }
+        vob!(cx, "C02.generate.one_field_or_variant_per_component_in_order", in_order);
+        if !in_order { return; }
+        let mut opt_ok = true; let mut ext_ok = true; let mut tag_ok = true;
+        for (i, f) in fields.iter().enumerate() {
+            if kind != 2 { opt_ok = opt_ok && (f.contains(": Option < bool >") == optional[i]) && (optional[i] || f.ends_with(": bool")); }
+            let is_addition = extensible.map_or(false, |k| i >= k);
+            ext_ok = ext_ok && (f.contains("extension_addition") == is_addition);
+            let explicit_form = format!("tag (explicit (context , {}))", 10 + i);
+            let implicit_form = format!("tag (context , {})", 10 + i);
+            tag_ok = tag_ok && if !tagged[i] { !f.contains("tag (") } else if env == TaggingEnvironment::Explicit { f.contains(&explicit_form) } else { f.contains(&implicit_form) && !f.contains("explicit") };
+        }
+        vob!(cx, "C02.generate.optional_components_are_option", opt_ok);
+        vob!(cx, "C05.generate.extension_additions_exactly_after_the_marker", ext_ok);
+        vob!(cx, "C03.generate.tag_rendered_with_class_number_and_mode", tag_ok);
+        vob!(cx, "C02.generate.set_is_marked_as_set", attrs.contains("rasn (set") == (kind == 1) || attrs.contains(", set") == (kind == 1));
+        vob!(cx, "C05.generate.extensible_iff_marker_or_extensibility_implied", attrs.contains("non_exhaustive") == (extensible.is_some() || implied));
+        let any_tagged = (0..n).any(|i| tagged[i]);
+        vob!(cx, "C03.generate.automatic_tags_iff_automatic_module_and_no_component_tagged", attrs.contains("automatic_tags") == (env == TaggingEnvironment::Automatic && !any_tagged));
+        // C05: the extensibility default is the one of the type's own module — compile a marker-less type of another module on the same backend
+        let other_implied = cx.any_bool();
+        let h2 = header("N", TaggingEnvironment::Automatic, other_implied);
+        let plain = ASN1Type::Sequence(SequenceOrSet { components_of: vec![], extensible: None, constraints: vec![], members: vec![SequenceOrSetMember { name: "f0".into(), tag: None, ty: ASN1Type::Boolean(Boolean { constraints: vec![] }), optionality: Optionality::Required, is_recursive: false, constraints: vec![] }] });
+        let second = backend.generate_module(vec![tld(&h2, &plain)]).ok().and_then(|m| m.generated).unwrap_or_default();
+        let leaked = match item_of(&second, "T") { Some((a, _)) => a.contains("non_exhaustive") != other_implied, None => true };
+        vob!(cx, "C05.generate.extensibility_default_taken_from_the_types_own_module", !leaked);
+    }
+    #[cfg(kani)]
+    { let _ = cx; }
+}
+
+// ------------------------------------------------------------------------------------------------
+// C04 — value references in bounds are resolved before the PER-visible range is computed:
+// ToplevelDefinition::has_constraint_reference (-> contains_constraint_reference -> Constraint/SubtypeElements::
+// has_cross_reference) guards ToplevelDefinition::link_constraint_reference in the validator.
+// Bounded stand-in (native): ranges / single values whose ends are literal, reference or MIN/MAX, directly,
+// inside SIZE(..), as a SEQUENCE component and in a union.
+// ------------------------------------------------------------------------------------------------
+pub fn contract_constraint_value_references<C: Ctx>(cx: &mut C) {
+    #[cfg(not(kani))]
+    {
+        use crate::intermediate::constraints::*;
+        use crate::intermediate::encoding_rules::per_visible::per_visible_range_constraints;
+        use crate::intermediate::types::*;
+        use std::collections::BTreeMap;
+        let vref = |name: &str| ASN1Value::ElsewhereDeclaredValue { module: None, parent: None, identifier: name.into() };
+        // end: 0 literal, 1 reference, 2 open
+        let lo_k = cx.choose(3);
+        let hi_k = cx.choose(3);
+        let single = cx.any_bool();
+        let (lo, lo_want) = match lo_k { 0 => (Some(ASN1Value::Integer(1)), Some(1)), 1 => (Some(vref("v")), Some(3)), _ => (None, None) };
+        let (hi, hi_want) = match hi_k { 0 => (Some(ASN1Value::Integer(10)), Some(10)), 1 => (Some(vref("w")), Some(7)), _ => (None, None) };
+        let (elem, want_lo, want_hi) = if single {
+            if !cx.assume(lo_k != 2) { return; }
+            (SubtypeElements::SingleValue { value: lo.clone().unwrap(), extensible: false }, lo_want, lo_want)
+        } else {
+            (SubtypeElements::ValueRange { min: lo, max: hi, extensible: false }, lo_want, hi_want)
+        };
+        let position = cx.choose(4); // 0 type assignment INTEGER, 1 SIZE on OCTET STRING, 2 SEQUENCE component, 3 union with a literal far outside
+        let (set, want_lo, want_hi) = match position {
+            3 => (ElementOrSetOperation::SetOperation(SetOperation { base: elem, operator: SetOperator::Union, operant: Box::new(ElementOrSetOperation::Element(SubtypeElements::SingleValue { value: ASN1Value::Integer(5), extensible: false })) }),
+                  want_lo.map(|l: i128| l.min(5)), want_hi.map(|h: i128| h.max(5))),
+            1 => (ElementOrSetOperation::Element(SubtypeElements::SizeConstraint(Box::new(ElementOrSetOperation::Element(elem)))), want_lo, want_hi),
+            _ => (ElementOrSetOperation::Element(elem), want_lo, want_hi),
+        };
+        let c = Constraint::Subtype(ElementSetSpecs { set, extensible: false });
+        let int_ty = |cs: Vec<Constraint>| ASN1Type::Integer(Integer { constraints: cs, distinguished_values: None });
+        let ty = match position {
+            1 => ASN1Type::OctetString(OctetString { constraints: vec![c] }),
+            2 => ASN1Type::Sequence(SequenceOrSet { components_of: vec![], extensible: None, constraints: vec![], members: vec![SequenceOrSetMember { name: "a".into(), tag: None, ty: int_ty(vec![c]), optionality: Optionality::Required, is_recursive: false, constraints: vec![] }] }),
+            _ => int_ty(vec![c]),
+        };
+        let mut tlds: BTreeMap<String, ToplevelDefinition> = BTreeMap::new();
+        tlds.insert("v".into(), ToplevelDefinition::Value(ToplevelValueDefinition::from(("v", ASN1Value::Integer(3), int_ty(vec![])))));
+        tlds.insert("w".into(), ToplevelDefinition::Value(ToplevelValueDefinition::from(("w", ASN1Value::Integer(7), int_ty(vec![])))));
+        let mut tld = ToplevelDefinition::Type(ToplevelTypeDefinition { comments: String::new(), tag: None, name: "T".into(), ty, parameterization: None, module_header: None });
+        cx.describe(|| format!("lower={} upper={} single_value={single} position={}", ["literal", "reference", "MIN"][lo_k], ["literal", "reference", "MAX"][hi_k], ["INTEGER type assignment", "SIZE of OCTET STRING", "SEQUENCE component", "union with 5"][position]));
+        // exactly what Validator::validate does
+        if tld.has_constraint_reference() {
+            let linked = tld.link_constraint_reference(&tlds);
+            vob!(cx, "C04.references.linking_succeeds", linked.is_ok());
+        }
+        let constraints: Vec<Constraint> = match &tld {
+            ToplevelDefinition::Type(t) => match &t.ty {
+                ASN1Type::Sequence(s) => s.members[0].ty.constraints().to_vec(),
+                other => other.constraints().to_vec(),
+            },
+            _ => vec![],
+        };
+        match per_visible_range_constraints(position != 1, &constraints) {
+            Ok(r) => {
+                let (glo, ghi): (Option<i128>, Option<i128>) = (r.min(), r.max());
+                let want_lo = if position == 1 { want_lo.or(Some(0)) } else { want_lo };
+                vob!(cx, "C04.references.lower_bound_resolved_to_the_referenced_value", glo == want_lo);
+                vob!(cx, "C04.references.upper_bound_resolved_to_the_referenced_value", ghi == want_hi);
+            }
+            Err(_) => { vob!(cx, "C04.references.range_computable_after_linking", false); }
+        }
+    }
+    #[cfg(kani)]
+    { let _ = cx; }
+}
+
+// ------------------------------------------------------------------------------------------------
+// C02 — "recursive components are boxed": ToplevelDefinition::mark_recursive -> ASN1Type::mark_recursive / recurses
+// (validator/linking/mod.rs; iterator closures + BTreeMap, outside both verifiers).  Bounded stand-in (native):
+// 2..=3 mutually referencing SEQUENCE / SET / CHOICE definitions with 1..=2 components each; the linker pass is
+// run in the validator's order and the graph of un-boxed references must be acyclic afterwards (a cycle of
+// un-boxed members is an infinitely sized Rust type).
+// ------------------------------------------------------------------------------------------------
+pub fn contract_recursion_marking<C: Ctx>(cx: &mut C) {
+    #[cfg(not(kani))]
+    {
+        use crate::intermediate::types::*;
+        use std::collections::BTreeMap;
+        const NAMES: [&str; 3] = ["A", "B", "C"];
+        let k = 2 + cx.choose(2);
+        let mut tlds: BTreeMap<String, ToplevelDefinition> = BTreeMap::new();
+        let mut shape = String::new();
+        for d in 0..k {
+            let kind = cx.choose(3);
+            let n = 1 + cx.choose(2);
+            let mut tys = vec![];
+            for _ in 0..n {
+                let t = cx.choose(2 * k + 1);
+                let r = |i: usize| ASN1Type::ElsewhereDeclaredType(DeclarationElsewhere { parent: None, module: None, identifier: NAMES[i].into(), constraints: vec![] });
+                tys.push(if t == 0 { (ASN1Type::Boolean(Boolean { constraints: vec![] }), "BOOLEAN".to_string()) }
+                    else if t <= k { (r(t - 1), NAMES[t - 1].to_string()) }
+                    else { (ASN1Type::SequenceOf(SequenceOrSetOf { constraints: vec![], element_type: Box::new(r(t - k - 1)), element_tag: None, is_recursive: false }), format!("SEQUENCE OF {}", NAMES[t - k - 1])) });
+            }
+            shape.push_str(&format!("{} ::= {} {{ {} }} ", NAMES[d], ["SEQUENCE", "SET", "CHOICE"][kind], tys.iter().map(|t| t.1.clone()).collect::<Vec<_>>().join(", ")));
+            let ty = if kind == 2 {
+                ASN1Type::Choice(Choice { extensible: None, constraints: vec![], options: tys.into_iter().enumerate().map(|(i, t)| ChoiceOption { name: format!("m{i}"), tag: None, ty: t.0, constraints: vec![], is_recursive: false }).collect() })
+            } else {
+                let s = SequenceOrSet { components_of: vec![], extensible: None, constraints: vec![], members: tys.into_iter().enumerate().map(|(i, t)| SequenceOrSetMember { name: format!("m{i}"), tag: None, ty: t.0, optionality: Optionality::Optional, is_recursive: false, constraints: vec![] }).collect() };
+                if kind == 0 { ASN1Type::Sequence(s) } else { ASN1Type::Set(s) }
+            };
+            tlds.insert(NAMES[d].into(), ToplevelDefinition::Type(ToplevelTypeDefinition { comments: String::new(), tag: None, name: NAMES[d].into(), ty, parameterization: None, module_header: None }));
+        }
+        cx.describe(|| shape.clone());
+        // the validator's pass: keys in order, definition taken out, marked against the others, put back
+        let keys: Vec<String> = tlds.keys().cloned().collect();
+        let mut ok = true;
+        for key in keys {
+            if let Some((kk, mut tld)) = tlds.remove_entry(&key) {
+                ok = ok && tld.mark_recursive(&tlds).is_ok();
+                tlds.insert(kk, tld);
+            }
+        }
+        vob!(cx, "C02.recursion.marking_succeeds", ok);
+        // un-boxed reference edges
+        let mut edge = [[false; 3]; 3];
+        for (d, name) in NAMES.iter().enumerate().take(k) {
+            if let Some(ToplevelDefinition::Type(t)) = tlds.get(*name) {
+                let members: Vec<(&ASN1Type, bool)> = match &t.ty {
+                    ASN1Type::Choice(c) => c.options.iter().map(|o| (&o.ty, o.is_recursive)).collect(),
+                    ASN1Type::Sequence(s) | ASN1Type::Set(s) => s.members.iter().map(|m| (&m.ty, m.is_recursive)).collect(),
+                    _ => vec![],
+                };
+                for (ty, boxed) in members {
+                    if let (ASN1Type::ElsewhereDeclaredType(e), false) = (ty, boxed) {
+                        if let Some(j) = NAMES.iter().position(|n| *n == e.identifier) { edge[d][j] = true; }
+                    }
+                }
+            }
+        }
+        // transitive closure
+        for m in 0..3 { for i in 0..3 { for j in 0..3 { if edge[i][m] && edge[m][j] { edge[i][j] = true; } } } }
+        vob!(cx, "C02.recursion.every_reference_cycle_has_a_boxed_member", !(edge[0][0] || edge[1][1] || edge[2][2]));
+    }
+    #[cfg(kani)]
+    { let _ = cx; }
 }
